@@ -1,33 +1,39 @@
 """C13 — both drivers move bytes faithfully and always deliver an operation's result."""
 
-PROP = {'areas': [{'area': 'c13', 'corpus': ['corpus/C13/ws.txt', 'corpus/C13/ws_write.txt', 'corpus/C13/results.txt'], 'quick': 16000, 'thorough': 1600000}],
+PROP = {'areas': [{'area': 'c13', 'corpus': ['corpus/C13/ws.txt', 'corpus/C13/ws_write.txt', 'corpus/C13/results.txt'], 'quick': 16000, 'thorough': 1600000},
+           {'area': 'engine', 'corpus': [], 'extra': ['100'], 'only_sig': '^C01:monitor:103$', 'quick': 12000, 'thorough': 2000000, 'tie_sig': '^$'}],
  'coq_target': 'Properties/C13.vo',
  'modelled': 'process_connected of both drivers (client/asynchronous/tokio/mod.rs 112-247, client/synchronous/threaded/mod.rs 154-330): outbound buffer, '
              'cumulative-bytes-written cursor, service appending, flush + write completion only for a fully written batch, Ok(0) / would-block / interrupted '
              'differences; WebsocketStreamWrapper + MessageCursor (client/synchronous/threaded/ws_stream.rs 11-139) as written; the operation channel and the '
              'per-operation result channel (tokio oneshot, threaded SyncResultSender/Receiver: client/synchronous/mod.rs 19-99, submit_* macros)',
  'not_modelled': 'tungstenite (message-level contract: read yields message / would-block / error; send = queue + flush, a would-block flush leaves the frame '
-                 'queued), tokio / std channels (contract: dropped oneshot sender resolves the receiver with an error; a dropped std Sender/closure just drops), '
-                 'real scheduling and OS write semantics: quantified over as event orders / write-result lists in the models, SAMPLED on the real loops',
+                 'queued), tokio / std channels (contract: dropped oneshot sender resolves the receiver with an error; a dropped std Sender/closure just '
+                 'drops), real scheduling and OS write semantics: quantified over as event orders / write-result lists in the models, SAMPLED on the real '
+                 'loops',
  'rule': 'per case one of: (ws-read) random message list (binary / text / ping, lengths 0..3x buffer) x buffer size in {1,2,3,4,8,16,64} x arrival pattern '
-         '(bursts, would-block boundaries, transport failure), frames produced by tungstenite\'s server side, read by the REAL WebsocketStreamWrapper and by the '
-         'extracted WsCursor.ws_read, compared read by read (tie) + stream = payload concatenation and no read larger than the buffer (property); (ws-write) '
-         'write/flush sequences over a transport that would-blocks, server-side decoding of what was accepted vs what the write calls reported; (real-bytes) REAL '
-         'tokio / threaded clients on a scripted transport with partial / blocked / interrupted writes and fragmented reads: the transport must have received '
-         'exactly CONNECT ++ the submitted publishes; (real-results) submissions racing close(): every operation exactly one result. Real-driver scenarios are '
-         '1/200 of the cases (about 0.5 s each). distinct = all cases (random inputs)'}
+         "(bursts, would-block boundaries, transport failure), frames produced by tungstenite's server side, read by the REAL WebsocketStreamWrapper and by "
+         'the extracted WsCursor.ws_read, compared read by read (tie) + stream = payload concatenation and no read larger than the buffer (property); '
+         '(ws-write) write/flush sequences over a transport that would-blocks, server-side decoding of what was accepted vs what the write calls reported; '
+         '(real-bytes) REAL tokio / threaded clients on a scripted transport with partial / blocked / interrupted writes and fragmented reads: the transport '
+         'must have received exactly CONNECT ++ the submitted publishes; (real-results) submissions racing close(): every operation exactly one result. '
+         'Real-driver scenarios are 1/200 of the cases (about 0.5 s each). distinct = all cases (random inputs) || ENGINE: close() resolves what is left '
+         "through the engine's reset: the engine area with the monitor mon_reset_clears (after reset every operation has received exactly one completion and "
+         'nothing stays tracked, in every protocol state, Disconnected included).'}
 
 META = {'design_ref': 'DESIGN.md section 7 / C13',
- 'level_note': 'Proved for the models over ALL write-result sequences / event orders / interleavings; the WebSocket adapter model is tied read-by-read to the real '
-               'adapter on random inputs; the byte path and result delivery of the real tokio / threaded loops are SAMPLED on scripted transports (scheduling, '
-               'select!, thread interleavings, OS write semantics are not controllable). C13_bytes_in is definitional in the loop model (the fragment is passed '
-               'through); its substance is the adapter theorem and the sampled runs. D15 (adapter read offsets) was found here and is fixed (73a05c7); known findings: D15b (WebSocket send repeated after would-block), D16 (threaded result slot).',
- 'level_text': 'Coq theorems: for every engine and every list of driver events (any write results, both drivers) accepted bytes ++ unwritten tail = concatenation '
-               'of the engine outputs, write completion only when exactly the produced outputs are accepted, finished connections got a prefix (C13_bytes_out); '
-               'tokio result channel: in every interleaving each operation is accounted exactly once and has exactly one result once the loop exited '
-               '(C13_result_exactly_once), threaded likewise while the loop runs, refuted after loop exit (C13_result_exactly_once_refuted, D16); WebSocket adapter: '
-               'for every message list (any sizes relative to the buffer, several per read), buffer size and arrival pattern the reads return the payload '
-               'concatenation and never more than the buffer holds (C13_ws_reassembly, C13_ws_read_bounded); write side refuted (C13_ws_write_refuted, D15b) and '
-               'proved outside that class (C13_ws_write).',
- 'technique': 'machine-checked proof in Coq (invariants by induction over event lists; counting argument for result delivery; vm_compute witnesses) + read-by-read '
-              'correspondence of the extracted adapter model with the real adapter + sampled runs of the real drivers'}
+ 'level_note': 'Proved for the models over ALL write-result sequences / event orders / interleavings; the WebSocket adapter model is tied read-by-read to the '
+               'real adapter on random inputs; the byte path and result delivery of the real tokio / threaded loops are SAMPLED on scripted transports '
+               '(scheduling, select!, thread interleavings, OS write semantics are not controllable). C13_bytes_in is definitional in the loop model (the '
+               'fragment is passed through); its substance is the adapter theorem and the sampled runs. D15 (adapter read offsets) was found here and is fixed '
+               '(73a05c7); known findings: D15b (WebSocket send repeated after would-block), D16 (threaded result slot).',
+ 'level_text': 'Coq theorems: for every engine and every list of driver events (any write results, both drivers) accepted bytes ++ unwritten tail = '
+               'concatenation of the engine outputs, write completion only when exactly the produced outputs are accepted, finished connections got a prefix '
+               '(C13_bytes_out); tokio result channel: in every interleaving each operation is accounted exactly once and has exactly one result once the loop '
+               'exited (C13_result_exactly_once), threaded likewise while the loop runs, refuted after loop exit (C13_result_exactly_once_refuted, D16); '
+               'WebSocket adapter: for every message list (any sizes relative to the buffer, several per read), buffer size and arrival pattern the reads '
+               'return the payload concatenation and never more than the buffer holds (C13_ws_reassembly, C13_ws_read_bounded); write side refuted '
+               '(C13_ws_write_refuted, D15b) and proved outside that class (C13_ws_write). The engine half of "operations still pending at close resolve with '
+               'an error" is C01_reset / C01_reset_any (theorems) and the monitor mon_reset_clears on the engine area, which is part of this check.',
+ 'technique': 'machine-checked proof in Coq (invariants by induction over event lists; counting argument for result delivery; vm_compute witnesses) + '
+              'read-by-read correspondence of the extracted adapter model with the real adapter + sampled runs of the real drivers'}
